@@ -505,6 +505,8 @@ enum GOp {
     Emit(i64, Option<Level>),
     Span(i64, Option<Level>),
     RtEmit(i64, Option<Level>),
+    /// `emit::dbg!(id)`: the shared runtime, level debug, no call-site filter possible
+    Dbg(i64),
     Direct(i64, Option<Level>),
     EmitInt(i64, Option<Level>),
     Flush(u64),
@@ -560,6 +562,7 @@ fn gop(s: &Sexp) -> Option<GOp> {
         ("emit", [e, l]) => GOp::Emit(id(e)?, glm(l)?),
         ("span", [e, l]) => GOp::Span(id(e)?, glm(l)?),
         ("rtemit", [e, l]) => GOp::RtEmit(id(e)?, glm(l)?),
+        ("dbg", [e]) => GOp::Dbg(id(e)?),
         ("direct", [e, l]) => GOp::Direct(id(e)?, glm(l)?),
         ("emitint", [e, l]) => GOp::EmitInt(id(e)?, glm(l)?),
         ("flush", [t]) => GOp::Flush(t.as_u64()?),
@@ -807,6 +810,11 @@ fn run_gseq(plan: Vec<GOp>) -> String {
                 with_gevent(e, l, |evt| emit::runtime::shared().emit(evt));
                 to(&log, from, e)
             }
+            GOp::Dbg(e) => {
+                let id = e;
+                emit::dbg!(id);
+                to(&log, from, e)
+            }
             GOp::Direct(e, l) => {
                 with_gevent(e, l, |evt| emit::emitter().emit(evt));
                 to(&log, from, e)
@@ -893,7 +901,15 @@ fn gen_gseq(rng: &mut Rng, k: usize) -> String {
             rng.below(9)
         };
         let op = match pick {
-            0 | 1 => ev(rng, "emit"),
+            0 => ev(rng, "emit"),
+            1 => {
+                if rng.bool() {
+                    ev(rng, "emit")
+                } else {
+                    next_e += 1;
+                    Sexp::tagged("dbg", vec![Sexp::num(next_e)])
+                }
+            }
             2 => ev(rng, "span"),
             3 => ev(rng, "rtemit"),
             4 => ev(rng, "direct"),
